@@ -1,0 +1,59 @@
+//go:build verif
+// +build verif
+
+// Contracts for deductive verification (govc, /verif). Comment-only file.
+
+package utxo
+
+// ======================= C02: token conservation =======================
+// The key of an output is a function of (owner, creating tx, offset).
+//@ func GenUtxoKey
+//@   noverify
+//@   pure
+//@ func GenUtxoKeyWithPrefix
+//@   noverify
+//@   pure
+
+// Sums of the declared amounts (big-endian naturals) of the first k outputs / inputs.
+//@ spec func sumOutTo(tx *xldgpb.Transaction, k int) int = k <= 0 ? 0 : sumOutTo(tx, k - 1) + natOf(tx.TxOutputs[k - 1].Amount)
+//@ spec func sumInTo(tx *xldgpb.Transaction, k int) int = k <= 0 ? 0 : sumInTo(tx, k - 1) + natOf(tx.TxInputs[k - 1].Amount)
+//@ macro inKey(tx, k) = GenUtxoKey(tx.TxInputs[k].FromAddr, tx.TxInputs[k].RefTxid, tx.TxInputs[k].RefOffset)
+
+// A transaction passes only if the sum of its declared input amounts equals the
+// sum of its output amounts (fee output included), or it is a coinbase transaction
+// without input value; the amount counted for each input is the stored amount of
+// the referenced output (the declared bytes must equal the stored bytes), and no
+// output is referenced twice.
+//@ func UtxoVM.CheckInputEqualOutput
+//@   property C02
+//@   uses natNonneg natCanon
+//@   ensures inputs_equal_outputs: result == nil ==> sumInTo(tx, len(tx.TxInputs)) == sumOutTo(tx, len(tx.TxOutputs)) || (tx.Coinbase && sumInTo(tx, len(tx.TxInputs)) == 0)
+//@   ensures no_output_spent_twice: result == nil ==> (forall a int, b int :: 0 <= a && a < b && b < len(tx.TxInputs) ==> inKey(tx, a) != inKey(tx, b))
+//@   loop 1 invariant out_sum: 0 <= $i && $i <= len(tx.TxOutputs) && sel(bigval, outputSum) == sumOutTo(tx, $i) && outputSum != nil && outputSum <= allocTop()
+//@   loop 2 invariant in_sum: 0 <= $i && $i <= len(tx.TxInputs) && sel(bigval, inputSum) == sumInTo(tx, $i) && sel(bigval, outputSum) == sumOutTo(tx, len(tx.TxOutputs)) && inputSum != nil && outputSum != nil && inputSum != outputSum && inputSum <= allocTop() && outputSum <= allocTop()
+//@   loop 2 invariant dedup: utxoDedup != nil && (forall k int :: 0 <= k && k < $i ==> in(utxoDedup, inKey(tx, k)) && utxoDedup[inKey(tx, k)]) && (forall a int, b int :: 0 <= a && a < b && b < $i ==> inKey(tx, a) != inKey(tx, b))
+
+// The reported total changes by exactly the delta, in the stated direction, and
+// the new total goes into the batch under the total-supply key.
+//@ func UtxoVM.UpdateUtxoTotal
+//@   property C02
+//@   ensures total_moves_by_delta: old(uv.utxoTotal) != nil && delta != nil ==> sel(bigval, uv.utxoTotal) == old(sel(bigval, uv.utxoTotal)) + (inc ? sel(old(bigval), delta) : 0 - sel(old(bigval), delta)) && uv.utxoTotal == old(uv.utxoTotal)
+//@   ensures total_in_batch: sel(bigval, uv.utxoTotal) >= 0 ==> sel(sel(batchVal, ifacePtr(batch)), xldgpb.MetaTablePrefix + UTXOTotalKey) == canonBytes(sel(bigval, uv.utxoTotal))
+
+// Cached balances move by exactly the delta of the output created / spent.
+//@ func UtxoVM.AddBalance
+//@   property C02
+//@   at big.Int.Add assert adds_delta_in_place: recv == $0 && $1 == delta
+//@   ensures only_cached_cells_change: forall r int :: !sel(cacheCells, r) ==> sel(bigval, r) == sel(old(bigval), r)
+//@ func UtxoVM.SubBalance
+//@   property C02
+//@   at big.Int.Sub assert subs_delta_in_place: recv == $0 && $1 == delta
+//@   ensures only_cached_cells_change: forall r int :: !sel(cacheCells, r) ==> sel(bigval, r) == sel(old(bigval), r)
+
+// Conservation step: an admissible non-coinbase transaction keeps
+// (sum of unspent outputs + pending fee outputs - total) unchanged; a coinbase
+// transaction without input value raises outputs and total by the same amount.
+//@ lemma conservation_step: forall u int, fees int, total int, sin int, soutPlain int, soutFee int :: sin == soutPlain + soutFee ==> (u - sin + soutPlain) + (fees + soutFee) - total == u + fees - total
+//@   property C02
+//@ lemma coinbase_step: forall u int, total int, sout int :: (u + sout) - (total + sout) == u - total
+//@   property C02
